@@ -7,7 +7,7 @@ import decsuite as ds
 
 THEOREMS = ["C02.c02_strict", "C02.c02_slices", "C02.c02_structural", "C02.c02_warning", "C02.c02_width",
             "C02.c02_field", "runWalker_acct", "decode_acct",
-            "runWalker_acctw", "C02.c02_warn_value_only"]
+            "runWalker_acctw", "C02.c02_warn_value_only", "C02.c02_stream", "C02.c02_stream_slices", "silent_facts"]
 
 
 def run(ctx, replay_case):
@@ -68,5 +68,6 @@ def run(ctx, replay_case):
     })
 
 
-PROP = {"targets": ["TpmProofs.Props.C08W"], "module": "TpmProofs.Props.C08W", "theorems": THEOREMS, "run": run,
-        "assumptions": ["the warn-mode clause (only value warnings) is monitored and tied by correspondence, not yet a theorem"]}
+PROP = {"targets": ["TpmProofs.Props.C02S"], "module": "TpmProofs.Props.C02S", "theorems": THEOREMS, "run": run,
+        "assumptions": ["c02_strict covers structures, commands and responses (outcome done); streams end silently and are covered by c02_stream; "
+                        "the warn-mode clause (only value warnings) is C02.c02_warn_value_only"]}
